@@ -67,7 +67,10 @@ PART = ['re']          # complex scenarios are validated part by part (the helpe
 
 def vec(v):
     v = np.asarray(v)
-    if v.dtype.kind == 'c':
+    if isinstance(PART[0], tuple):                      # several right-hand sides: validated column by column
+        if v.ndim == 2:
+            v = v[:, PART[0][1]]
+    elif v.dtype.kind == 'c':
         v = v.real if PART[0] == 're' else v.imag
     return exact_ints(np.asarray(v, dtype=np.float64).ravel())
 
@@ -124,6 +127,18 @@ def split_object(rec, n):
 
 
 def execute(rec):
+    if rec.get('ncol'):
+        out = []
+        for j in range(rec['ncol']):
+            PART[0] = ('col', j)
+            try:
+                evs = execute_part(rec)
+            finally:
+                PART[0] = 're'
+            for ev in evs:
+                ev['tags'] = {'part': f'col{j}'}
+            out += evs
+        return out
     if rec.get('cplx'):
         out = []
         for part in ('re', 'im'):
@@ -160,6 +175,10 @@ def execute_part(rec):
             if fmt != 'csr':
                 b = getattr(b, 'to' + fmt)()
         x = np.array(rec['x'], dtype=np.float64) if hasx else None
+        if rec.get('ncol'):
+            # several right-hand sides / sets of prescribed values at once: (n, k) arrays
+            b = np.array(rec['bcols'], dtype=np.float64).T.copy()
+            x = np.array(rec['xcols'], dtype=np.float64).T.copy()
         if rec.get('cplx'):
             if x is not None:
                 x = x + 1j * np.array(rec['xi'], dtype=np.float64)
@@ -236,6 +255,8 @@ def execute_part(rec):
                     z = np.array([(5 * r + 1) % 17 - 8 for r in range(len(Ir))], dtype=np.float64)
                     if rec.get('cplx'):
                         z = z + 1j * np.array([(3 * r + 2) % 11 - 5 for r in range(len(Ir))], dtype=np.float64)
+                    if rec.get('ncol'):
+                        z = np.stack([(c + 1) * z + c for c in range(rec['ncol'])], axis=1)
                     A_, b_, x_, kw_, _ = fresh()
                     args2 = dict(kw_)
                     if x_ is not None:
@@ -308,7 +329,7 @@ def execute_part(rec):
 
     # ---- real solver pipelines (mode L) on systems with known integer solution
     if rec.get('ytrue') is not None and hasb == 1 and hasx:
-        for method in ('condense', 'enforce', 'penalize'):
+        for method in ('condense', 'enforce', 'penalize', 'penalize-default'):
             A, b, x, kw, D0 = fresh()
             ev = base('Solve', A, b, x, D0)
             ev.update(method=method, ytrue=rec['ytrue'], y=[])
@@ -318,6 +339,8 @@ def execute_part(rec):
                     return su.solve(*su.condense(A, b, x=x, **kw))
                 if method == 'enforce':
                     return su.solve(*su.enforce(A, b, x=x, **kw))
+                if method == 'penalize-default':
+                    return su.solve(*su.penalize(A, b, x=x, **kw))          # the library's own choice of penalty
                 return su.solve(*su.penalize(A, b, x=x, epsilon=2.0**-30, **kw))
             y, err = guarded(call)
             ev['err'] = err
@@ -451,6 +474,25 @@ def generate(tier, seed):
                          'x': [int(v) for v in rng.integers(-5, 6, size=n)], 'diag': 1, 'ie_pow': 10, 'cplx': 1,
                          'xi': [int(v) * xc for v in rng.integers(1, 6, size=n)],
                          'bi': [int(v) * bc for v in rng.integers(1, 6, size=n)]})
+    # several right-hand sides and sets of prescribed values at once ((n, k) arrays), validated column by column
+    for j in range(60 if tier == 'thorough' else 12):
+        n = int(rng.integers(2, 8))
+        kcol = int(rng.integers(2, 4))
+        nd = int(rng.integers(1, n))
+        D = [int(v) for v in rng.permutation(n)[:nd]]
+        I = [int(v) for v in rng.permutation(np.setdiff1d(np.arange(n), D))]
+        xcols = [[int(v) for v in rng.integers(-5, 6, size=n)] for _ in range(kcol)]
+        for i in D[:1]:
+            for c in range(kcol):
+                xcols[c][i] = int(rng.integers(1, 6))             # a constrained index that is non-zero in every column
+        for i in D[1:2]:
+            for c in range(kcol):
+                xcols[c][i] = 0 if c else 3                       # ... and one that is non-zero in a single column
+        bcols = [[int(v) for v in rng.integers(-5, 6, size=n)] for _ in range(kcol)]
+        recs.append({'driver': 'bc', 'n': n, 'A': rand_matrix(rng, n), 'hasb': 1, 'hasx': 1,
+                     'form': ['D-array', 'I-array', 'D-list-int64'][j % 3], 'D': D, 'I': I, 'b': bcols[0], 'x': xcols[0],
+                     'bcols': bcols, 'xcols': xcols, 'ncol': kcol, 'diag': int(rng.choice([1, 2])), 'ie_pow': 10,
+                     'family': 'multi-rhs'})
     # systems with known solution -> real solver
     for k in range(200 if tier == 'thorough' else 30):
         n = int(rng.integers(2, 11))
@@ -461,6 +503,34 @@ def generate(tier, seed):
         x = [ytrue[i] if i in D else int(rng.integers(-9, 10)) for i in range(n)]   # values off D are ignored
         recs.append({'driver': 'bc', 'n': n, 'A': A, 'hasb': 1, 'hasx': 1, 'form': ['D-array', 'I-array'][k % 2],
                      'D': D, 'I': I, 'b': b, 'x': x, 'ytrue': ytrue, 'diag': 1, 'ie_pow': 10, 'both_ov': False})
+    # the same with constrained rows that are NOT dominant: diagonal missing / an explicit zero / no stored entry at all
+    # (saddle-point or multiplier rows) next to at least one constrained row with a non-zero diagonal; only the kept
+    # block has to be regular.  Driven through every method incl. penalize with its DEFAULT penalty.
+    for k in range(120 if tier == 'thorough' else 24):
+        n = int(rng.integers(3, 10))
+        A, b, ytrue = dominant_system(rng, n)
+        nd = int(rng.integers(2, n))
+        D = [int(v) for v in rng.permutation(n)[:nd]]
+        I = [int(v) for v in rng.permutation(np.setdiff1d(np.arange(n), D))]
+        ptr, idx, dat = [0], [], []
+        for i in range(n):
+            row = list(zip(A['idx'][A['ptr'][i]:A['ptr'][i + 1]], A['dat'][A['ptr'][i]:A['ptr'][i + 1]]))
+            if i in D[1:]:
+                how = int(rng.integers(0, 4))
+                if how == 0:
+                    row = [(j, v) for j, v in row if j != i]                 # diagonal not stored
+                elif how == 1:
+                    row = [(j, 0 if j == i else v) for j, v in row]          # stored as an explicit zero
+                elif how == 2:
+                    row = []                                                 # no stored entry
+            idx += [int(j) for j, _ in row]
+            dat += [int(v) for _, v in row]
+            ptr.append(len(idx))
+        A2 = {'n': n, 'm': n, 'ptr': ptr, 'idx': idx, 'dat': dat}
+        x = [ytrue[i] if i in D else int(rng.integers(-9, 10)) for i in range(n)]
+        recs.append({'driver': 'bc', 'n': n, 'A': A2, 'hasb': 1, 'hasx': 1, 'form': ['D-array', 'I-array'][k % 2],
+                     'D': D, 'I': I, 'b': b, 'x': x, 'ytrue': ytrue, 'diag': 1, 'ie_pow': 10, 'both_ov': False,
+                     'family': 'constrained-rows-singular'})
     # DOF views and dictionaries of views
     for bname, tags in (('tri1', ['left', 'right', 'top', 'bottom']), ('line2', ['left', 'right']),
                         ('quad1', ['left', 'right', 'top', 'bottom'])):
